@@ -10,7 +10,8 @@
    `<k>_pinned_unsafe` exhibits, for the code as pinned, a wrapper-admissible input on
    which the model fails: these are the replays of known_findings.d/C05.json. *)
 From Coq Require Import ZArith Bool List String Reals PrimFloat.
-From Hy Require Import Base.Num Gen.ConstsC05 Model.Safety Proofs.SafetyProofs.
+From Hy Require Import Base.Num Gen.ConstsC05 Model.Safety Model.SafetyGis Proofs.SafetyProofs
+  Proofs.SafetyGisProofs.
 Import ListNotations.
 Open Scope Z_scope.
 
@@ -109,3 +110,187 @@ Theorem C05_var2h_pinned_unsafe_product :
   exists s, for_loop 1 596524 (vh_period F64 false 2 3600 [0; 4000000000] 2 3600) s = Fail Overflow.
 Proof. exact var2h_pinned_unsafe_product. Qed.
 Print Assumptions C05_var2h_pinned_unsafe_product.
+
+(* ================================================================== *)
+(* gis kernels.  nrows, ncols are the shape of an allocated array (or the two attributes of
+   a Grid): non-negative, product at most 2^63-1 (MAX64). *)
+
+Example C05_pyx_contract_gis :
+  pyx_has "gis" "coord2cell" ["idxcell.shape[0]==xycoords.shape[0]"] &&
+  pyx_has "gis" "cell2coord" ["2==coords.shape[1]"; "coords.shape[0]==idxcell.shape[0]"] &&
+  pyx_has "gis" "cell2rowcol" ["2==rowcols.shape[1]"; "idxcell.shape[0]==rowcols.shape[0]"] &&
+  pyx_has "gis" "neighbours" ["9==neighbours.shape[0]"] &&
+  pyx_has "gis" "downstream" ["3==flowdircode.shape[0]"; "3==flowdircode.shape[1]";
+                              "idxdown.shape[0]==idxup.shape[0]"] &&
+  pyx_has "gis" "accumulate" ["3==flowdircode.shape[0]"; "3==flowdircode.shape[1]";
+      "accumulation.shape[0]==flowdir.shape[0]"; "accumulation.shape[1]==flowdir.shape[1]";
+      "flowdir.shape[0]==to_accumulate.shape[0]"; "flowdir.shape[1]==to_accumulate.shape[1]"] &&
+  pyx_has "gis" "slope" ["3==flowdircode.shape[0]"; "3==flowdircode.shape[1]";
+      "altitude.shape[0]==flowdir.shape[0]"; "altitude.shape[1]==flowdir.shape[1]";
+      "flowdir.shape[0]==slopeval.shape[0]"; "flowdir.shape[1]==slopeval.shape[1]"] &&
+  pyx_has "gis" "voronoi" ["2==xypoints.shape[1]"; "weights.shape[0]==xypoints.shape[0]"] &&
+  pyx_has "gis" "delineate_boundary" ["buffer.shape[0]==idxcells_area.shape[0]";
+      "catchment_area_mask.shape[0]==nrows*ncols";
+      "idxcells_area.shape[0]==idxcells_boundary.shape[0]"] = true.
+Proof. vm_compute. reflexivity. Qed.
+
+(* the .pyx wrapper of coord2cell does not assert that the coordinate array has two columns;
+   the Python wrapper (Grid.coord2cell) does since the `fix:` commit *)
+Example C05_coord2cell_wrapper_checks_two_columns : GRID_COORD2CELL_CHECKS_TWO_COLUMNS = true.
+Proof. reflexivity. Qed.
+
+(* c_coord2cell: over any arithmetic whose conversion to integer succeeds on values that
+   compared inside [0, n) (binary64; the reals with a NaN), any coordinates, any cell size *)
+Theorem C05_coord2cell_safe : forall {T} (N : NumOps T),
+  (forall x n, 0 <= n <= MAX64 -> nleb N (n0 N) x = true -> nltb N x (nofZ N n) = true ->
+     exists z, ntrunc N x = Some z /\ 0 <= z < n) ->
+  forall nrows ncols xll yll csz nval xy idxcell,
+  0 <= nrows <= MAX64 -> 0 <= ncols <= MAX64 -> nrows * ncols <= MAX64 ->
+  Zlen xy = 2 * nval -> Zlen idxcell = nval ->
+  safe (coord2cell N true nrows ncols xll yll csz nval xy idxcell).
+Proof. exact @coord2cell_safe. Qed.
+Print Assumptions C05_coord2cell_safe.
+
+(* ... in particular over the reals extended with NaN (None): NaN and huge coordinates included *)
+Theorem C05_coord2cell_safe_reals_with_nan : forall nrows ncols xll yll csz nval xy idxcell,
+  0 <= nrows <= MAX64 -> 0 <= ncols <= MAX64 -> nrows * ncols <= MAX64 ->
+  Zlen xy = 2 * nval -> Zlen idxcell = nval ->
+  safe (coord2cell RN true nrows ncols xll yll csz nval xy idxcell).
+Proof. exact coord2cell_safe_RN. Qed.
+Print Assumptions C05_coord2cell_safe_reals_with_nan.
+
+Example C05_coord2cell_nonvacuous :
+  coord2cell F64 true 3 3 0%float 0%float 1%float 3 [0.5; 1.5; nan; 1; 0x1p+1000; 0.5]%float [9; 9; 9]
+  = Ret 0 [3; -1; -1].
+Proof. vm_compute. reflexivity. Qed.
+
+Theorem C05_coord2cell_pinned_unsafe_nan :
+  coord2cell F64 false 3 3 0%float 0%float 1%float 1 [nan; 1]%float [0] = Fail CastRange.
+Proof. exact coord2cell_pinned_unsafe_nan. Qed.
+Theorem C05_coord2cell_pinned_unsafe_huge :
+  coord2cell F64 false 3 3 0%float 0%float 1%float 1 [0x1p+1000; 1]%float [0] = Fail CastRange.
+Proof. exact coord2cell_pinned_unsafe_huge. Qed.
+(* the precondition Zlen xy = 2*nval is needed: an (n,1) array read as (n,2) *)
+Theorem C05_coord2cell_needs_two_columns :
+  coord2cell F64 true 3 3 0%float 0%float 1%float 5 [0; 0; 0; 0; 0]%float [0; 0; 0; 0; 0]
+  = Fail (OOB "xycoords" 5).
+Proof. exact coord2cell_needs_two_columns. Qed.
+Print Assumptions C05_coord2cell_needs_two_columns.
+
+(* c_cell2rowcol, c_cell2coord, c_neighbours: any cell numbers *)
+Theorem C05_cell2rowcol_safe : forall nrows ncols nval idxcell rowcols,
+  0 <= nrows -> 0 <= ncols -> nrows * ncols <= MAX64 ->
+  Zlen idxcell = nval -> Zlen rowcols = 2 * nval ->
+  safe (cell2rowcol nrows ncols nval idxcell rowcols).
+Proof. exact cell2rowcol_safe. Qed.
+Print Assumptions C05_cell2rowcol_safe.
+
+Theorem C05_cell2coord_safe : forall nrows ncols nval idxcell xy,
+  0 <= nrows -> 0 <= ncols -> nrows * ncols <= MAX64 ->
+  Zlen idxcell = nval -> Zlen xy = 2 * nval ->
+  safe (cell2coord nrows ncols nval idxcell xy).
+Proof. exact cell2coord_safe. Qed.
+Print Assumptions C05_cell2coord_safe.
+
+Theorem C05_neighbours_safe : forall nrows ncols idx nb,
+  0 <= nrows -> 0 <= ncols -> nrows * ncols <= MAX64 -> Zlen nb = 9 ->
+  safe (neighbours nrows ncols idx nb).
+Proof. exact neighbours_safe. Qed.
+Print Assumptions C05_neighbours_safe.
+
+(* c_downstream: any flow direction values (valid codes or not), any cell numbers; and what it
+   answers: an error, or for every cell -2, -1 or a cell of the grid *)
+Theorem C05_downstream_safe : forall nrows ncols code flowdir nval idxup idxdown,
+  0 <= nrows -> 0 <= ncols -> nrows * ncols <= MAX64 ->
+  Zlen code = 9 -> Zlen flowdir = nrows * ncols -> Zlen idxup = nval -> Zlen idxdown = nval ->
+  safe (downstream nrows ncols code flowdir nval idxup idxdown).
+Proof. exact downstream_safe. Qed.
+Print Assumptions C05_downstream_safe.
+
+Theorem C05_downstream_answers_cells : forall nrows ncols code flowdir nval idxup idxdown,
+  0 <= nrows -> 0 <= ncols -> nrows * ncols <= MAX64 ->
+  Zlen code = 9 -> Zlen flowdir = nrows * ncols -> Zlen idxup = nval -> Zlen idxdown = nval ->
+  post3 (downstream nrows ncols code flowdir nval idxup idxdown) (fun _ => False) (fun _ => False)
+        (fun c out => Zlen out = nval /\ (c = 0 \/ c = 1) /\
+           (c = 0 -> forall j, 0 <= j < nval ->
+              0 <= nth (Z.to_nat j) idxup 0 < nrows * ncols /\
+              dgood (nrows * ncols) (nth (Z.to_nat j) out 0))).
+Proof. exact downstream_post. Qed.
+Print Assumptions C05_downstream_answers_cells.
+
+(* c_accumulate, c_slope: any flow direction grid (cycles, invalid codes), any nprint
+   (0 included), any cap *)
+Theorem C05_accumulate_safe : forall nrows ncols nprint maxacc code flowdir ntoacc nacc,
+  0 <= ncols -> nrows * ncols <= MAX64 ->
+  Zlen code = 9 -> Zlen flowdir = nrows * ncols -> ntoacc = nrows * ncols -> nacc = nrows * ncols ->
+  safe (accumulate true nrows ncols nprint maxacc code flowdir ntoacc nacc).
+Proof. exact accumulate_safe. Qed.
+Print Assumptions C05_accumulate_safe.
+
+Theorem C05_accumulate_pinned_unsafe :
+  accumulate false 2 2 0 4 [32; 64; 128; 16; 0; 1; 8; 4; 2] [1; 4; 1; 0] 4 4 = Fail DivZero.
+Proof. exact accumulate_pinned_unsafe. Qed.
+
+Theorem C05_slope_safe : forall nrows ncols nprint code flowdir nalt slopeval,
+  0 <= ncols -> nrows * ncols <= MAX64 ->
+  Zlen code = 9 -> Zlen flowdir = nrows * ncols -> nalt = nrows * ncols ->
+  Zlen slopeval = nrows * ncols ->
+  safe (slope true nrows ncols nprint code flowdir nalt slopeval).
+Proof. exact slope_safe. Qed.
+Print Assumptions C05_slope_safe.
+
+Theorem C05_slope_pinned_unsafe :
+  slope false 2 2 0 [32; 64; 128; 16; 0; 1; 8; 4; 2] [1; 4; 1; 0] 4 [false; false; false; false]
+  = Fail DivZero.
+Proof. exact slope_pinned_unsafe. Qed.
+
+(* c_voronoi: any arithmetic, any point coordinates, any number of points (0 included), any
+   catchment cells (outside the grid included), empty grids included *)
+Theorem C05_voronoi_safe : forall {T} (N : NumOps T) nrows ncols xll yll csz ncells area npoints xyp weights,
+  nrows * ncols <= MAX64 -> nrows <= MAX64 ->
+  Zlen area = ncells -> Zlen xyp = 2 * npoints -> Zlen weights = npoints ->
+  safe (voronoi N true nrows ncols xll yll csz ncells area npoints xyp weights).
+Proof. exact @voronoi_safe. Qed.
+Print Assumptions C05_voronoi_safe.
+
+Theorem C05_voronoi_pinned_unsafe :
+  voronoi F64 false 3 3 0%float 0%float 1%float 6 [0; 1; 2; 3; 4; 5] 1 [1; 1]%float [0%float]
+  = Fail (OOB "xypoints" 2).
+Proof. exact voronoi_pinned_unsafe. Qed.
+Theorem C05_voronoi_pinned_unsafe_nopoint :
+  voronoi F64 false 3 3 0%float 0%float 1%float 1 [0] 0 [] [] = Fail (OOB "xypoints" 0).
+Proof. exact voronoi_pinned_unsafe_nopoint. Qed.
+
+(* c_delineate_boundary: any area cells (one cell, scattered, outside the grid), any mask
+   content; grids of at most 2^30 rows and columns; over any arithmetic in which the 80 %
+   threshold converts to an integer (binary64; the reals) *)
+Theorem C05_delineate_boundary_safe : forall {T} (N : NumOps T),
+  (forall n, 0 <= n <= MAX64 -> exists z, bd_threshold N n = Ok z) ->
+  forall nrows ncols nval area buffer mask out,
+  nrows <= LIM -> ncols <= LIM -> nval <= MAX64 ->
+  Zlen area = nval -> Zlen buffer = nval -> Zlen mask = nrows * ncols -> Zlen out = nval ->
+  safe (delineate_boundary N true nrows ncols nval area buffer mask out).
+Proof. exact @delineate_boundary_safe. Qed.
+Print Assumptions C05_delineate_boundary_safe.
+
+Theorem C05_delineate_boundary_safe_reals : forall nrows ncols nval area buffer mask out,
+  nrows <= LIM -> ncols <= LIM -> nval <= MAX64 ->
+  Zlen area = nval -> Zlen buffer = nval -> Zlen mask = nrows * ncols -> Zlen out = nval ->
+  safe (delineate_boundary RR true nrows ncols nval area buffer mask out).
+Proof. exact delineate_boundary_safe_RR. Qed.
+Print Assumptions C05_delineate_boundary_safe_reals.
+
+Example C05_delineate_boundary_nonvacuous :
+  exists s, delineate_boundary F64 true 3 3 3 [5; 4; 1] [9; 9; 9] [0; 1; 0; 0; 1; 1; 0; 0; 0] [9; 9; 9]
+            = Ret 0 ([1; 4; 5], s) /\ bd_out s = [1; 4; 1].
+Proof. eexists. vm_compute. split; reflexivity. Qed.
+
+Theorem C05_delineate_boundary_pinned_unsafe :
+  delineate_boundary F64 false 3 3 1 [4] [0] [0; 0; 0; 0; 1; 0; 0; 0; 0] [0]
+  = Fail (OOB "buffer" (-1)).
+Proof. exact delineate_boundary_pinned_unsafe. Qed.
+Theorem C05_delineate_boundary_pinned_unsafe_cells :
+  delineate_boundary F64 false 2 2 2 [-2; -1] [0; 0] [1; 1; 1; 1] [0; 0]
+  = Fail (OOB "catchment_area_mask" (-1)).
+Proof. exact delineate_boundary_pinned_unsafe_cells. Qed.
+Print Assumptions C05_delineate_boundary_pinned_unsafe_cells.
